@@ -854,6 +854,17 @@ def clock_intervals(c):
     return out
 
 
+def raise_when(c, j):
+    """classifies an exception for the signature: 'zero-interval-clock' = a clock message handled at (within the few
+    readings one callback takes of) the instant of the previous clock message"""
+    if c["msgs"][j][0] != "clock":
+        return "other"
+    prev = [i for i in range(j) if c["msgs"][i][0] == "clock"]
+    if prev and abs(c["times"][j] - c["times"][prev[-1]]) <= 3 * c.get("intra", 0):
+        return "zero-interval-clock"
+    return "clock"
+
+
 def secs(units):
     return "%.9g s" % (units / UNIT)
 
@@ -901,7 +912,7 @@ def judge_midi_in(run, c, r):
         iv = ivs[j]
         since = "" if iv is None else ", %s (%d units of 2^-20 s) after the previous clock message by time.time()" % (secs(iv), iv)
         if j in raised:
-            when = "zero-interval-clock" if iv == 0 else "clock" if m[0] == "clock" else "other"
+            when = raise_when(c, j)
             key = ("midi-in-raises", raised[j], when)
             if key not in seen:
                 seen.add(key)
@@ -1067,7 +1078,7 @@ def check_midi(run):
         if r.get("exc"):
             j, name = r["exc"][0]
             iv = clock_intervals(c)[j]
-            when = "zero-interval-clock" if iv == 0 else "clock" if c["msgs"][j][0] == "clock" else "other"
+            when = raise_when(c, j)
             run.violation({"kind": "midi-in-raises", "site": "MidiInputDevice->Timeline", "error": name, "when": when}, {
                 "case": {"devs": c["devs"], "msgs": c["msgs"][:j + 1], "times": c["times"][:j + 1], "intra": c["intra"]},
                 "observed": "message %d %r raised %s%s" % (j, c["msgs"][j], name, "" if iv is None else " (%s after the previous clock message)" % secs(iv)),
@@ -1128,8 +1139,6 @@ def check_midi(run):
 
 def check(run):
     for name, f in (("multiplier", check_multiplier), ("timeline", check_timeline), ("clock", check_clock), ("midi", check_midi)):
-        if os.environ.get("C14_DEV_ONLY") and name not in os.environ["C14_DEV_ONLY"]:      # DEV-TEMP
-            continue
         t0 = time.time()
         f(run)
         run.cov["seconds_" + name] = round(time.time() - t0, 1)
